@@ -412,6 +412,20 @@ def body_term(stmts: Sequence[ast.stmt], env: Env) -> Term:
         raise Unrecognised(f"assignment {unparse(st)[:60]}")
     if isinstance(st, ast.Assert):
         return ("assuming", T(st.test, env), body_term(rest, env))
+    if isinstance(st, ast.If) and st.body and _only_rebinds(st.body) and _only_rebinds(st.orelse):
+        # ``if C: x = e`` (conditional rebinding of locals)
+        c = T(st.test, env)
+        new = env.child()
+        names = {t.targets[0].id for t in list(st.body) + list(st.orelse)}
+        then_env, else_env = env.child(), env.child()
+        for a in st.body:
+            then_env.names[a.targets[0].id] = T(a.value, then_env)
+        for a in st.orelse:
+            else_env.names[a.targets[0].id] = T(a.value, else_env)
+        for nm in names:
+            old = env.names.get(nm, ("name", nm))
+            new.names[nm] = mk_ite(c, then_env.names.get(nm, old), else_env.names.get(nm, old))
+        return body_term(rest, new)
     if isinstance(st, ast.If):
         c = T(st.test, env)
         if _raises(st.body) and not st.orelse:
@@ -441,6 +455,10 @@ def body_term(stmts: Sequence[ast.stmt], env: Env) -> Term:
     if isinstance(st, ast.Raise):
         return ("raise", unparse(st.exc.func) if isinstance(st.exc, ast.Call) else unparse(st.exc) if st.exc else "")
     raise Unrecognised(f"statement {type(st).__name__}: {unparse(st)[:60]}")
+
+
+def _only_rebinds(stmts: Sequence[ast.stmt]) -> bool:
+    return all(isinstance(a, ast.Assign) and len(a.targets) == 1 and isinstance(a.targets[0], ast.Name) for a in stmts) and (len(stmts) > 0 or True)
 
 
 def _terminates(stmts: Sequence[ast.stmt]) -> bool:
